@@ -1404,6 +1404,32 @@ func nodeStateSemantics(c *Ctx) {
 // done is that constant (`joined = true` -> true; `revert = false` -> false).
 func joinCompletionFlag(c *Ctx) (*types.Var, bool) {
 	rj := chordFn(c, "LocalNode", "RequestToJoin")
+	// by its use: the boolean local under whose test the deferred block makes the joiner the
+	// predecessor; `done` is the truth value of that test there
+	for _, w := range fieldWrites(c, "chord", "chord.LocalNode.predecessor") {
+		if w.fn.root() != rj {
+			continue
+		}
+		g := w.fn.enclosing(w.stmt)
+		if g == rj {
+			continue // only the deferred block's write
+		}
+		var flag *types.Var
+		done := false
+		g.FactsAt(w.stmt).Cmp(func(e, tag ast.Expr, truth bool, fa *Fact) bool {
+			if tag != nil || fa.Inherited {
+				return false
+			}
+			if v := g.varOf(e); v != nil && types.Identical(v.Type(), types.Typ[types.Bool]) && flag == nil {
+				flag, done = v, truth
+			}
+			return false
+		})
+		if flag != nil {
+			return flag, done
+		}
+	}
+	// by its definition: assigned a boolean constant where the transfer is known to have succeeded
 	var flag *types.Var
 	done := false
 	for _, nd := range shallowNodes(rj.Body) {
